@@ -45,7 +45,7 @@ func loadDesign(name string) (*spec.Design, error) {
 }
 
 func init() {
-	for _, p := range []string{"C02", "C03", "C04", "C05", "C06"} {
+	for _, p := range []string{"C02", "C03", "C04", "C05", "C06", "C08"} {
 		p := p
 		engine.Register(p, func(t *verifsim.Tape, cfg engine.Config) *engine.Outcome { return runExchange(t, cfg, p) })
 	}
@@ -270,6 +270,10 @@ func runExchange(t *verifsim.Tape, cfg engine.Config, prop string) *engine.Outco
 		ncfg.CutRequest, ncfg.FlipRequest, ncfg.DupRequest, ncfg.DropRequest = 150, 150, 100, 50
 		ncfg.CutResponse, ncfg.FlipResponse, ncfg.WriterError = 100, 100, 100
 	}
+	if prop == "C08" && faulty {
+		ncfg = simnet.Config{Chunking: true, HeaderNoise: 250, RewriteRate: 500,
+			RewriteHeader: map[string][]string{"Goa-View": {"default", "tiny", "full", "extended", "nosuchview", ""}}}
+	}
 	w := &world{d: d}
 	sys, err := gen.Assemble(name, t, ncfg, w.handler, w.auth, w.errHandler)
 	if err != nil {
@@ -285,6 +289,16 @@ func runExchange(t *verifsim.Tape, cfg engine.Config, prop string) *engine.Outco
 	distinct := map[string]bool{}
 	for xi := 0; xi < nEx; xi++ {
 		s, m := pickMethod(t, d)
+		if prop == "C08" {
+			// prefer methods whose result is a result type with views
+			for k := 0; k < 6 && resultType(d, m) == nil; k++ {
+				s, m = pickMethod(t, d)
+			}
+			if resultType(d, m) == nil {
+				o.Features["c08_no_viewed_method_in_design"]++
+				continue
+			}
+		}
 		sh := sys.Handles[s.Name]
 		mh := sh.Method(m.Name)
 		if mh == nil {
@@ -303,6 +317,22 @@ func runExchange(t *verifsim.Tape, cfg engine.Config, prop string) *engine.Outco
 		result := genResult(t, d, m, resp)
 		mode := "valid"
 		w.reject = map[string]bool{}
+		viewName, viewClass := "", ""
+		if prop == "C08" {
+			u := resultType(d, m)
+			switch k := t.Draw("view-choice", 8); {
+			case m.FixedView != "":
+				viewName, viewClass = "", "fixed"
+			case k == 0:
+				viewName, viewClass = "", "empty"
+			case k == 1 && len(u.Views) > 1:
+				viewName, viewClass = "nosuchview", "undefined"
+			default:
+				viewName = u.Views[t.Draw("which-view", len(u.Views))].Name
+				viewClass = "defined"
+			}
+			mode = "view:" + viewClass
+		}
 		var secPlan *secExpect
 		if prop == "C06" {
 			secPlan = planSecurity(t, d, s, m, payload, w.reject)
@@ -440,7 +470,7 @@ func runExchange(t *verifsim.Tape, cfg engine.Config, prop string) *engine.Outco
 			goPayload = pv.Interface()
 		}
 		w.invoked, w.unhandled, w.authLog = nil, nil, nil
-		w.result, w.view, w.err = nil, "", scriptErr
+		w.result, w.view, w.err = nil, viewName, scriptErr
 		if m.Result != nil && mh.Result != nil && scriptErr == nil {
 			rv, err := gen.ToGo(d, result, m.Result.Type, mh.Result)
 			if err != nil {
@@ -481,7 +511,7 @@ func runExchange(t *verifsim.Tape, cfg engine.Config, prop string) *engine.Outco
 			o.Violate("client_panic", "client_panic:"+panicClass(fmt.Sprint(cpanic), ex), "%s: generated client panicked: %v (payload %s, faults %v, response body %q)", where, cpanic, gen.Show(payload), ex.Faults, clipS(string(ex.RespWire)))
 			continue
 		}
-		if ex.HandlerPanic != nil && ex.HandlerPanic != "http.ErrAbortHandler" {
+		if ex.HandlerPanic != nil && ex.HandlerPanic != "http.ErrAbortHandler" && !(prop == "C08" && viewClass == "undefined") {
 			o.Violate("handler_panic", "handler_panic:"+sig, "%s: generated server panicked: %v\n%s (payload %s, faults %v)", where, ex.HandlerPanic, ex.PanicStack, gen.Show(payload), ex.Faults)
 			continue
 		}
@@ -500,7 +530,7 @@ func runExchange(t *verifsim.Tape, cfg engine.Config, prop string) *engine.Outco
 			o.Violate("response_encoding_failed", "response_encoding_failed:"+sig, "%s: the generated handler could not write its response: %v (payload %s, result %s, status %d body %q)", where, w.unhandled[0], gen.Show(payload), gen.Show(result), ex.Status, clipS(string(ex.RespBody)))
 			continue
 		}
-		if hardFault {
+		if hardFault && prop != "C08" {
 			o.Features["exchanges_under_fault"]++
 			judgeFaulty(o, w, d, m, ex, payload, where, sig, cerr)
 			continue
@@ -509,6 +539,10 @@ func runExchange(t *verifsim.Tape, cfg engine.Config, prop string) *engine.Outco
 		if c := classifyFailureAny(d, m, payload, result, ex); c != "" && mode != "valid" && mode != "boundary-ok" {
 			// a defect class that already has its own signature got in the way of this exchange
 			o.Violate("valid_request_failed", "valid_failed:"+c, "%s: %s (mode %s, payload %s, status %d, body %q)", where, c, mode, gen.Show(payload), ex.Status, clipS(string(ex.RespBody)))
+			continue
+		}
+		if prop == "C08" {
+			judgeView(o, w, d, s, m, ex, result, res, viewName, viewClass, cerr, where)
 			continue
 		}
 		if secPlan != nil {
@@ -1128,5 +1162,157 @@ func judgeSecurity(o *engine.Outcome, w *world, d *spec.Design, s *spec.Service,
 		if err := json.Unmarshal(ex.RespBody, &er); err != nil || er.Name != "unauthorized" || !strings.Contains(er.Message, fmt.Sprintf("(call %d)", len(got))) || cerr == nil {
 			o.Violate("security_error", "security_error", "%s: every requirement failed; the client got %v, body %q; want the last callback's error (unauthorized, call %d)", where, cerr, clipS(string(ex.RespBody)), len(got))
 		}
+	}
+}
+
+
+// ---------------------------------------------------------------------------
+// C08: views
+// ---------------------------------------------------------------------------
+
+// resultType returns the result type (with views) a method returns, or nil.
+func resultType(d *spec.Design, m *spec.Method) *spec.UserType {
+	if m.Result == nil || m.Result.Type.Kind != spec.User {
+		return nil
+	}
+	if u := d.UserType(m.Result.Type.Name); u != nil && u.IsResult {
+		return u
+	}
+	return nil
+}
+
+// wireKeys checks that a JSON object carries exactly the attributes of the view.
+func wireKeys(d *spec.Design, raw json.RawMessage, u *spec.UserType, view string, sent any, path string) []string {
+	var obj map[string]json.RawMessage
+	if err := json.Unmarshal(raw, &obj); err != nil {
+		return []string{fmt.Sprintf("%s is not a JSON object: %v", path, err)}
+	}
+	vw := gen.ViewOf(u, view)
+	if vw == nil {
+		return nil
+	}
+	in := map[string]bool{}
+	for _, f := range vw.Fields {
+		in[f] = true
+	}
+	var errs []string
+	for k := range obj {
+		if !in[k] {
+			errs = append(errs, fmt.Sprintf("%s carries %q which is not part of view %q", path, k, vw.Name))
+		}
+	}
+	so, _ := sent.(map[string]any)
+	for _, fn := range vw.Fields {
+		f := u.Attr.Type.Field(fn)
+		if so[fn] != nil && !isEmptyArr(so[fn]) {
+			if _, ok := obj[fn]; !ok {
+				errs = append(errs, fmt.Sprintf("%s lacks %q which view %q contains (value %s)", path, fn, vw.Name, gen.Show(so[fn])))
+				continue
+			}
+		}
+		if f != nil && f.Type.Kind == spec.User && obj[fn] != nil && so[fn] != nil {
+			if nu := d.UserType(f.Type.Name); nu != nil && nu.IsResult {
+				errs = append(errs, wireKeys(d, obj[fn], nu, f.View, so[fn], path+"."+fn)...)
+			}
+		}
+	}
+	sort.Strings(errs)
+	return errs
+}
+
+func judgeView(o *engine.Outcome, w *world, d *spec.Design, s *spec.Service, m *spec.Method, ex *simnet.Exchange, sent, res any, viewName, viewClass string, cerr error, where string) {
+	u := resultType(d, m)
+	o.Features["c08_view_"+viewClass]++
+	if c := classifyFailureAny(d, m, nil, sent, ex); c != "" || (len(w.invoked) == 0) {
+		o.Features["c08_request_refused"]++
+		return
+	}
+	rendered := viewName
+	if m.FixedView != "" {
+		rendered = m.FixedView
+	}
+	if rendered == "" {
+		rendered = "default"
+	}
+	// with a view fixed in the design both sides know it statically: no label travels
+	multi := len(u.Views) > 1 && m.FixedView == ""
+	rewritten := strings.HasPrefix(ex.RespFault, "rewrite_header:")
+	sig := fmt.Sprintf("views=%d,%s", len(u.Views), viewClass)
+	if viewClass == "undefined" {
+		// the service named a view the type does not have: anything but a success that
+		// exposes attributes is acceptable; what goa does is recorded
+		switch {
+		case ex.HandlerPanic != nil:
+			o.Features["c08_undefined_view_handler_panic"]++
+		case cerr != nil:
+			o.Features["c08_undefined_view_error"]++
+		default:
+			o.Violate("undefined_view_rendered", "undefined_view_rendered", "%s: the service asked for view %q which %s does not define and the client got a success: %s (body %q)", where, viewName, u.Name, gen.Show(gen.FromGo(d, reflect.ValueOf(res), m.Result.Type)), clipS(string(ex.RespBody)))
+		}
+		return
+	}
+	if ex.HandlerPanic != nil {
+		o.Violate("handler_panic", "handler_panic:view:"+sig, "%s: server panicked rendering view %q: %v\n%s", where, rendered, ex.HandlerPanic, ex.PanicStack)
+		return
+	}
+	// ---- what crossed the wire (before any rewrite: ex.RespHeader is the server's own)
+	if ex.Status != m.Responses[0].Status {
+		o.Violate("response_status", "status:view", "%s: status %d, design says %d", where, ex.Status, m.Responses[0].Status)
+		return
+	}
+	hv := ex.RespHeader.Get("Goa-View")
+	if multi && hv != rendered {
+		o.Violate("view_header", "view_header:"+sig, "%s: rendered view %q but the goa-view header says %q", where, rendered, hv)
+	}
+	for _, e := range wireKeys(d, ex.RespBody, u, rendered, sent, "body") {
+		o.Violate("view_wire", "view_wire:"+sig, "%s: view %q: %s\n  full value %s\n  body %q", where, rendered, e, gen.Show(sent), clipS(string(ex.RespBody)))
+		break
+	}
+	// ---- what the client rebuilt
+	if rewritten {
+		label := strings.TrimPrefix(strings.SplitN(ex.RespFault, "=", 2)[1], "")
+		o.Features["fault_rewrite_goa_view"]++
+		target := gen.ViewOf(u, label)
+		if !multi {
+			return // a single-view type does not depend on the label
+		}
+		switch {
+		case target == nil || label == "":
+			if label == "" {
+				target = gen.ViewOf(u, "default")
+			}
+			if target == nil {
+				o.Features["c08_label_undefined"]++
+				if cerr == nil {
+					o.Violate("undefined_label_accepted", "undefined_label_accepted", "%s: the response was labelled with view %q which %s does not define and the client accepted it: %s", where, label, u.Name, gen.Show(gen.FromGo(d, reflect.ValueOf(res), m.Result.Type)))
+				}
+				return
+			}
+			fallthrough
+		default:
+			o.Features["c08_label_other_defined_view"]++
+			if cerr == nil {
+				got := gen.FromGo(d, reflect.ValueOf(res), m.Result.Type)
+				// the property says nothing about a response relabelled with another DEFINED
+				// view (the body then really carries the extra attributes): counted, not judged
+				if out := gen.OutsideView(d, got, u, target.Name, ""); len(out) > 0 {
+					o.Features["c08_relabelled_extra_attributes_kept"]++
+				}
+			}
+		}
+		return
+	}
+	if cerr != nil {
+		o.Violate("view_client_error", "view_client_error:"+errName(cerr)+":"+sig, "%s: rendering view %q of %s failed at the client: %v\n  full value %s\n  body %q", where, rendered, gen.Show(sent), cerr, gen.Show(sent), clipS(string(ex.RespBody)))
+		return
+	}
+	got := gen.FromGo(d, reflect.ValueOf(res), m.Result.Type)
+	want := gen.Expected(d, gen.Project(d, sent, u, rendered), &spec.Attr{Type: &spec.Type{Kind: spec.Object, Fields: u.Attr.Type.Fields}})
+	gotIn := gen.Project(d, got, u, rendered)
+	if diff := gen.Diff(want, gotIn, ""); diff != "" {
+		o.Violate("view_value", "view_value:"+sig, "%s: view %q: %s\n  service returned %s\n  client rebuilt   %s", where, rendered, diff, gen.Show(sent), gen.Show(got))
+	}
+	if out := gen.OutsideView(d, got, u, rendered, ""); len(out) > 0 {
+		o.Violate("view_leak", "view_leak:"+sig, "%s: view %q: attributes outside the view are set on the client: %v (body %q)", where, rendered, out, clipS(string(ex.RespBody)))
 	}
 }
